@@ -70,8 +70,9 @@ def resolve(mod, c, v):
     return v
 
 
-def check_controller(tkey, cname, seed, lenient, unit=None):
-    """All single assignments and all ordered pairs for one controller in one mode."""
+def check_controller(tkey, cname, seed, lenient, unit=None, attached=False):
+    """All single assignments and all ordered pairs for one controller in one mode.  attached: the module lives in a
+    Project (propagation to the project / change callbacks run in that context only)."""
     from rv.errors import ControllerValueError, override_raise_controller_value_errors
 
     t = spec.types()[tkey]
@@ -81,10 +82,15 @@ def check_controller(tkey, cname, seed, lenient, unit=None):
     vs = []
     n = 0
     key = {"type": tkey, "controller": c.name}
+    if attached:
+        key["attached"] = True
     fixed = c.kind in ("range", "compact", "no_offset")
 
     def fresh():
         m = cls()
+        if attached:
+            import rv.api as rv
+            rv.Project().attach_module(m)
         if unit is not None:
             u = by_name[c.depends_on]
             setattr(m, u.attr, u.members[unit])
@@ -111,7 +117,7 @@ def check_controller(tkey, cname, seed, lenient, unit=None):
     for (l1, v1, ok1, e1) in alpha:
         for (l2, v2, ok2, e2) in [(None, None, None, None)] + alpha:
             n += 1
-            case = {"type": tkey, "controller": c.name, "lenient": lenient, "unit": unit,
+            case = {"type": tkey, "controller": c.name, "lenient": lenient, "unit": unit, "attached": attached,
                     "seq": [v1] if l2 is None else [v1, v2]}
             m = fresh()
             if mixed and l2 is None:
@@ -209,6 +215,50 @@ def check_defaults_and_ctor(tkey, seed):
                                      {"value": v, "outcome": out}, case))
                 if c.kind == "enum" and out == "ok":
                     vs.append(C.viol("ctor-invalid-enum-accepted", dict(key, label=label), {"value": v}, case))
+    return n, vs
+
+
+def ctor_values(c, seed):
+    """Two in-domain non-default values per controller for the constructor-pair product."""
+    if c.kind in ("range", "compact", "no_offset"):
+        vals = [v for v in deviate.range_alphabet(c.min, c.max, seed) if v != c.default]
+        return [(v, v) for v in ([vals[0], vals[-1]] if len(vals) > 1 else vals)]
+    if c.kind == "enum":
+        mem = [(spec.enumname(n), v) for n, v in c.members.items() if n != c.default]
+        out = mem[:1] + mem[-1:] if len(mem) > 1 else mem
+        return [(out[0][0], out[0][1])] + [(v, v) for _n, v in out[1:]]     # one by name, one by value
+    if c.kind == "bool":
+        return [(not bool(c.default), int(not bool(c.default)))]
+    return []
+
+
+def ctor_pairs(tkey, seed, only=None):
+    """Constructor keywords in COMBINATION: every unordered pair of controllers of the type x two in-domain values
+    each; both must read back exactly (a constructor that post-processes one keyword when another is present --
+    e.g. a selector plus the value it selects -- is only visible in pairs)."""
+    t = spec.types()[tkey]
+    cls = cls_of(tkey)
+    vs = []
+    n = 0
+    ctls = [c for c in t.controllers if c.kind != "dependent"]
+    for i, a in enumerate(ctls):
+        for b in ctls[i + 1:]:
+            if only and [a.name, b.name] != only[:2]:
+                continue
+            for (va, ea) in ctor_values(a, seed):
+                for (vb, eb) in ctor_values(b, seed):
+                    n += 1
+                    case = {"type": tkey, "ctor_pair": [a.name, b.name]}
+                    try:
+                        m = cls(**{a.attr: va, b.attr: vb})
+                    except Exception as ex:
+                        vs.append(C.viol("ctor-pair-rejected", {"type": tkey, "a": a.name, "b": b.name},
+                                         {"values": [va, vb], "exc": type(ex).__name__}, case))
+                        continue
+                    ga, gb = getattr(m, a.attr), getattr(m, b.attr)
+                    if as_int(ga) != ea or as_int(gb) != eb:
+                        vs.append(C.viol("ctor-pair-not-stored", {"type": tkey, "a": a.name, "b": b.name},
+                                         {"values": [va, vb], "read": [repr(ga), repr(gb)]}, case))
     return n, vs
 
 
@@ -321,13 +371,20 @@ def run_case(case):
     if case.get("default") or "ctor" in case:
         _n, vs = check_defaults_and_ctor(case["type"], 0)
         return [v for v in vs if v["key"].get("controller") == case["controller"]]
-    _n, vs = check_controller(case["type"], case["controller"], 0, case["lenient"], case.get("unit"))
+    if case.get("ctor_pair"):
+        return ctor_pairs(case["type"], 0, only=case["ctor_pair"])[1]
+    _n, vs = check_controller(case["type"], case["controller"], 0, case["lenient"], case.get("unit"),
+                              case.get("attached", False))
     return vs
 
 
 def _task(t):
     r = C.new_result()
-    if t[0] == "defaults":
+    if t[0] == "ctorpairs":
+        n, vs = ctor_pairs(t[1], t[2])
+        C.count(r, "ctor_pairs", n)
+        r["sample"] = {"type": t[1], "ctor_pairs": True}
+    elif t[0] == "defaults":
         n, vs = check_defaults_and_ctor(t[1], t[2])
         n2, vs2 = lenient_load(t[1])
         n += n2
@@ -335,9 +392,9 @@ def _task(t):
         C.count(r, "lenient_loads", n2)
         r["sample"] = {"type": t[1], "defaults_and_ctor": True}
     else:
-        _k, tkey, cname, seed, lenient, unit = t
-        n, vs = check_controller(tkey, cname, seed, lenient, unit)
-        r["sample"] = {"type": tkey, "controller": cname, "lenient": lenient, "unit": unit}
+        _k, tkey, cname, seed, lenient, unit, attached = t
+        n, vs = check_controller(tkey, cname, seed, lenient, unit, attached)
+        r["sample"] = {"type": tkey, "controller": cname, "lenient": lenient, "unit": unit, "attached": attached}
         C.count(r, "controller_modes")
     r["evals"] = n
     r["violations"] = vs
@@ -358,7 +415,9 @@ def run(ctx):
             units = list(c.ranges) if c.kind == "dependent" else [None]
             for u in units:
                 for lenient in (False, True, "mixed"):
-                    tasks.append(("ctl", tkey, c.name, ctx.seed, lenient, u))
+                    tasks.append(("ctl", tkey, c.name, ctx.seed, lenient, u, False))
+                tasks.append(("ctl", tkey, c.name, ctx.seed, False, u, True))
+        tasks.append(("ctorpairs", tkey, ctx.seed))
     agg = C.Agg()
     for r in ctx.pmap(_task, tasks, chunksize=4):
         agg.merge(r)
@@ -375,6 +434,6 @@ def run(ctx):
                 "as every ordered pair, strict and lenient, attribute and constructor path; each (controller, mode, "
                 "sequence) is distinct by construction; non-trivial = sequences beyond the bare default read",
         "exhaustive": True,
-        "first_use_comparisons": n_fu, "lenient_loads_of_out_of_range_files": agg.counters.get("lenient_loads", 0), "types": len(spec.types()), "controllers": nctl, "controller_mode_tasks": agg.counters.get("controller_modes", 0),
+        "first_use_comparisons": n_fu, "lenient_loads_of_out_of_range_files": agg.counters.get("lenient_loads", 0), "types": len(spec.types()), "controllers": nctl, "controller_mode_tasks": agg.counters.get("controller_modes", 0), "constructor_keyword_pairs": agg.counters.get("ctor_pairs", 0),
         "samples": agg.samples,
     }
